@@ -675,6 +675,7 @@ var inComm = map[ast.Node]bool{}
 var rangeOverMap = map[ast.Node]bool{}
 var appendLoc = map[*ast.CallExpr]string{}
 var delTarget = map[*ast.CallExpr]*ast.Ident{}
+var builtinWrite = map[*ast.CallExpr]*ast.SelectorExpr{}
 var inPlace = map[*ast.Ident]bool{} // uses of a foreign-struct package-level value that work on it in place
 var rangeOverChan = map[ast.Node]bool{}
 
@@ -690,6 +691,13 @@ func (x *xf) pre(c *astutil.Cursor) bool {
 				if id := x.capturedIdent(n.Args[0]); id != nil {
 					delTarget[n] = id
 				}
+			}
+		}
+		// copy(x.f, ...), delete(x.f, k), clear(x.f): a write of the field (the operand stays as it is)
+		if (x.builtin(n, "copy") || x.builtin(n, "delete") || x.builtin(n, "clear")) && len(n.Args) > 0 {
+			if se := x.written(n.Args[0]); se != nil {
+				builtinWrite[n] = se
+				markSkip(n.Args[0])
 			}
 		}
 		// G.M(...) with G a package-level value of a struct type from another package and M a pointer method:
@@ -1005,7 +1013,7 @@ func (x *xf) post(c *astutil.Cursor) bool {
 		}
 		switch {
 		case (x.builtin(call, "copy") || x.builtin(call, "delete") || x.builtin(call, "clear")) && len(call.Args) > 0:
-			if se := x.written(call.Args[0]); se != nil && inBlock(c) {
+			if se := builtinWrite[call]; se != nil && inBlock(c) {
 				c.InsertAfter(x.wStmt(se))
 				x.nW++
 				x.needRT = true
